@@ -391,8 +391,14 @@ def build(active_known=frozenset()):
 
 GEN_REPLAY = r'''
 import subprocess, sys, tempfile, os
-src = """(ns c10.replay.gen)
+d = tempfile.mkdtemp()
+os.makedirs(os.path.join(d, "c10r"))
+open(os.path.join(d, "c10r", "__init__.py"), "w").close()
+open(os.path.join(d, "c10r", "other.lpy"), "w").write("(ns c10r.other)\n(def x 7)\n")
+src = """(ns c10.replay.gen (:require c10r.other))
 (def x 1)
+(defn fo [c10r-other] c10r.other/x)
+(defn fo2 [c10r_other] (let [y c10r.other/x] y))
 (defn f [x] c10.replay.gen/x)
 (defn g [& x] c10.replay.gen/x)
 (defn h [x] (fn [] c10.replay.gen/x))
@@ -402,17 +408,18 @@ src = """(ns c10.replay.gen)
 (alter-var-root #'r inc)
 (def ^:dynamic *d* 1)
 (defn dd [] *d*)
-(println "RESULT" (f 2) (g 2) ((h 2)) (k 2) (rd) (binding [*d* 5] (dd)))
+(println "RESULT" (f 2) (g 2) ((h 2)) (k 2) (rd) (binding [*d* 5] (dd)) (try (fo 5) (catch python/Exception e (python/type e))) (try (fo2 6) (catch python/Exception e (python/type e))))
 """
 with tempfile.NamedTemporaryFile("w", suffix=".lpy", delete=False) as fh:
     fh.write(src)
 try:
-    out = subprocess.run([sys.executable, "-m", "basilisp.cli", "run", fh.name], capture_output=True, text=True, timeout=300)
+    env = dict(os.environ, PYTHONPATH=d + os.pathsep + os.environ.get("PYTHONPATH", ""))
+    out = subprocess.run([sys.executable, "-m", "basilisp.cli", "run", fh.name], capture_output=True, text=True, timeout=300, env=env)
 finally:
     os.unlink(fh.name)
 line = [l for l in out.stdout.splitlines() if l.startswith("RESULT")]
 got = line[0] if line else "no output: " + out.stderr[-300:]
-want = "RESULT 1 1 1 [3 1] 2 5"
+want = "RESULT 1 1 1 [3 1] 2 5 7 7"
 print("qualified references to a Var shadowed by parameters, a redef Var after alter-var-root, a dynamic Var under binding:")
 print("  got     ", got)
 print("  expected", want)
@@ -542,8 +549,28 @@ def add_generator_contracts(pack):
         eng.models[id(gen._var_ns_as_python_sym)] = Model("_var_ns_as_python_sym", lambda e, s, a, k: iter([(s, SV(V.mk_str(V.Val.s(NS_PYSYM(e.lift(a[0], s))))))]))
 
         def load_attr(e, s, a, k):
-            r = LOAD_ATTR(e.lift(a[0], s), e.lift(k.get("ctx", a[1] if len(a) > 1 else None), s))
+            # _load_attr("<module>.<name>"): the attribute <name> of the Python name <module>.  The dotted string is built
+            # by an f-string from a name bound in the module (an identifier, no dots) and the Var's safe name; the model
+            # reads the module part off that term and gives the node its shape: Attribute(value=Name(id=<module>)).
+            path = e.lift(a[0], s)
+            r = LOAD_ATTR(path, e.lift(k.get("ctx", a[1] if len(a) > 1 else None), s))
             s.assume(V.is_ref(r), V.Val.a(r) <= 0, V.cls_of(V.Val.a(r)) == e.class_id(ast.Attribute))
+            t = z3.simplify(V.Val.s(path))
+            guard = []
+
+            def flat(u):
+                while z3.is_app(u) and u.decl().kind() == z3.Z3_OP_ITE:  # a formatted value that is a string on this path
+                    guard.append(u.arg(0))
+                    u = u.arg(1)
+                if z3.is_app(u) and u.decl().kind() == z3.Z3_OP_SEQ_CONCAT:
+                    return [w for ch in u.children() for w in flat(ch)]
+                return [u]
+
+            parts = flat(t)
+            if len(parts) >= 3 and z3.is_string_value(parts[1]) and parts[1].as_string() == ".":
+                root = e.alloc(s, ast.Name)
+                e.store_field(s, root.t, "id", V.mk_str(parts[0]), None)
+                s.assume(z3.Implies(z3.And(*guard) if guard else z3.BoolVal(True), z3.Select(s.field_array("value"), V.Val.a(r)) == root.t))
             yield s, SV(r, hint=ast.Attribute)
 
         eng.models[id(gen._load_attr)] = Model("_load_attr", load_attr)
@@ -649,7 +676,8 @@ def add_generator_contracts(pack):
         # a function parameter compiled to the same Python name would capture the global: then the Var must be used
         direct_here = z3.And(exact(a.eng, n, ast.Name), fld(post, n, "id") == link, ctx_cls(a, n), z3.Not(PARAM_BOUND(symtab(a), link)))
         alias = NIM(V.mk_str(V.Val.s(NS_PYSYM(nsname))), fld(a.pre.st, CUR_NS, "_module"))
-        direct_other = z3.And(z3.Not(V.is_none(alias)), exact(a.eng, n, ast.Attribute))
+        # (the same for a link through another namespace's module: a parameter named like that module would capture it)
+        direct_other = z3.And(z3.Not(V.is_none(alias)), exact(a.eng, n, ast.Attribute), z3.Not(PARAM_BOUND(symtab(a), alias)))
         direct = z3.And(z3.Not(V.is_none(link)), z3.If(same_ns, direct_here, direct_other))
         return z3.And(exact(a.eng, r, GPA),
                       z3.If(V.Val.b(fld(a.pre.st, a.node, "return_var")), is_find_call(a, post, n, vname, nsname),
